@@ -206,7 +206,8 @@ Proof. intros P H p Hin. rewrite forallb_forall in H. apply H. exact Hin. Qed.
 Ltac crun_lazy :=
   unfold crun;
   lazy -[Z.ltb Z.leb Z.gtb Z.geb Z.eqb Z.max Qle_bool Qeq_bool inject_Z existsb adjacent_ge dnan dlt dle dgt dge d0 d1
-         is_16 Z.of_nat length nth Z.to_nat cal_at negb orb andb olist apply_a_rows];
+         is_16 Z.of_nat length nth Z.to_nat cal_at negb orb andb olist apply_a_rows xadjacent_ge xfreq_ok xsigma_pos xsigma_nonneg
+         xle xlt xnan xinf x0];
   rewrite ?Z.eqb_refl; cbn [negb orb andb].
 Ltac batoms :=
   rewrite ?Z.gtb_ltb, ?Z.geb_leb; try reflexivity;
@@ -308,12 +309,15 @@ Lemma solve_bad_magic_not_tested_l : forall s,
   crun (env_solve HBad s) gen_contract_vnacal_new_solve = crun (env_solve HOk s) gen_contract_vnacal_new_solve.
 Proof. intros s. crun_lazy. reflexivity. Qed.
 
-(* vnacal_new_set_m_error *)
+(* vnacal_new_set_m_error: the generated list in the environment over doubles with NaN and infinities is the decision as
+   coded, for the generation of the validation loops the C text has (gen_m_error_f92 / f94) *)
 Lemma set_m_error_contract_l : forall s a,
-  mdec_of (crun (env_set_m_error HOk s a) gen_contract_vnacal_new_set_m_error) = set_m_error_decision s a.
+  mdec_of (crun (env_set_m_error_x HOk s a) gen_contract_vnacal_new_set_m_error) =
+  code_set_m_error gen_m_error_f92 gen_m_error_f94 s a.
 Proof.
-  intros s [n fv nf tr narrow s16]. unfold set_m_error_decision. cbn [me_n me_fv me_nf me_tr me_narrow me_s16].
-  destruct nf as [nfl|], tr as [trl|], fv as [l|]; crun_lazy; cbn [olist existsb];
+  intros s [n fv nf tr narrow s16]. unfold code_set_m_error, gen_m_error_f92, gen_m_error_f94.
+  cbn [mx_n mx_fv mx_nf mx_tr mx_narrow mx_s16].
+  destruct nf as [nfl|], tr as [trl|], fv as [l|]; crun_lazy; cbn [olist existsb andb orb negb];
     rewrite ?Z.gtb_ltb; bools.
 Qed.
 
@@ -391,9 +395,9 @@ Lemma apply_contract_l : forall tb a,
   crun (env_apply HOk tb a) gen_contract_vnacal_apply_common =
   if apply_valid tb a then CPass else CRefused VM1 (Via USAGE).
 Proof.
-  intros tb [ci fvn n na below above bn br bc bcell aopt acell outn].
-  unfold env_apply, table_vars, apply_valid, cal_at.
-  cbn [ap_ci ap_fv_null ap_n ap_not_ascending ap_below ap_above ap_b_null ap_b_rows ap_b_cols ap_b_null_cell ap_a
+  intros tb [ci fvn n fnan na below above bn br bc bcell aopt acell outn].
+  unfold env_apply, table_vars, apply_valid, apply_valid_with, gen_apply_tests_nan, cal_at.
+  cbn [ap_ci ap_fv_null ap_n ap_fv_nan ap_not_ascending ap_below ap_above ap_b_null ap_b_rows ap_b_cols ap_b_null_cell ap_a
        ap_a_null_cell ap_out_null].
   crun_lazy. rewrite ?Z.geb_leb.
   destruct (Z.ltb_spec ci 0); [reflexivity|].
@@ -475,10 +479,10 @@ Example n2_history_satisfiable :
   let s0 := mkn2 (mknsum 0 2 2 3 false false (mknew [] 0 0 0 None)) (Some (1 # 1000000)) (Some (1 # 1000000)) 30 (Some (1 # 1000)) in
   n2_inv s0 /\
   snd (n2_step s0 (N2SetPvalue HOk (Some 2%Q))) = RRefused VM1 (Via USAGE) /\
-  snd (n2_step s0 (N2SetMError HOk (mkmerr 1 None (Some [Some 1%Q]) None false false))) = RRefused VM1 (Via USAGE) /\
+  snd (n2_step s0 (N2SetMError HOk (mkmerrx 1 None (Some [XFin 1%Q]) None false false))) = RRefused VM1 (Via USAGE) /\
   snd (n2_step s0 (N2Solve HNull false)) = RRefused VM1 (Direct E_INVAL) /\
   v_merror (n2_sum (n2_hist s0 [N2SetFv HOk (Some [Some 1%Q; Some 2%Q; Some 3%Q]) false; N2SetPvalue HOk (Some 2%Q);
-                                N2SetMError HOk (mkmerr 1 None (Some [Some 1%Q]) None false false)])) = true.
+                                N2SetMError HOk (mkmerrx 1 None (Some [XFin 1%Q]) None false false)])) = true.
 Proof. vm_compute. repeat split; try reflexivity; try discriminate; intro H; discriminate. Qed.
 
 (* ------------------------------------------------------------------ every translated function at once *)
@@ -519,9 +523,9 @@ Example contract_report_satisfiable :
   crun (env_new_alloc HOk 0 2 1 3) gen_contract_vnacal_new_alloc = CRefused VNULL (Via USAGE) /\
   In ("vnacal_get_fmin", VHUGE, gen_contract_vnacal_get_fmin) gen_contracts /\
   crun (env_get HOk [Some (mkcal 0 1 1 0)] 0) gen_contract_vnacal_get_fmin = CRefused VHUGE (Direct E_INVAL) /\
-  crun (env_apply HOk [None; Some (mkcal 8 2 1 3)] (mkapp 1 false 2 false false false false 2 2 false (Some (1, 2)) false false))
+  crun (env_apply HOk [None; Some (mkcal 8 2 1 3)] (mkapp 1 false 2 false false false false false 2 2 false (Some (1, 2)) false false))
        gen_contract_vnacal_apply_common = CPass /\
-  crun (env_apply HOk [None; Some (mkcal 8 2 1 3)] (mkapp 1 false 2 false false false false 2 2 false (Some (2, 2)) false false))
+  crun (env_apply HOk [None; Some (mkcal 8 2 1 3)] (mkapp 1 false 2 false false false false false 2 2 false (Some (2, 2)) false false))
        gen_contract_vnacal_apply_common = CRefused VM1 (Via USAGE).
 Proof. vm_compute. repeat split; try reflexivity; auto 40. Qed.
 
@@ -583,3 +587,124 @@ Example add_common_contract_examples :
     [CPass; CRefused VM1 (Via USAGE); CRefused VM1 (Via USAGE); CRefused VM1 (Via USAGE); CRefused VM1 (Via MATH);
      CRefused VM1 (Via USAGE); CRefused VM1 (Via USAGE); CRefused VM1 (Via USAGE)].
 Proof. vm_compute. split; reflexivity. Qed.
+
+(* ------------------------------------------------------------------ vnacal_new_set_m_error: the code after DC92 + DC94 is the manual's rule *)
+Lemma existsb_negb_forallb : forall (A : Type) (f : A -> bool) l, existsb (fun x => negb (f x)) l = negb (forallb f l).
+Proof. induction l as [|x l IH]; simpl; [reflexivity|]. rewrite IH. destruct (f x); reflexivity. Qed.
+
+Lemma xascending_adjacent : forall l, forallb xfreq_ok l = true -> xascending l = negb (xadjacent_ge l).
+Proof.
+  induction l as [|a l IH]; intros H; [reflexivity|].
+  destruct l as [|b r]; [reflexivity|].
+  simpl in H. apply andb_true_iff in H. destruct H as [Ha H].
+  assert (Hb := H). simpl in Hb. apply andb_true_iff in Hb. destruct Hb as [Hb _].
+  change (xascending (a :: b :: r)) with (xlt a b && xascending (b :: r)).
+  change (xadjacent_ge (a :: b :: r)) with (xle b a || xadjacent_ge (b :: r)).
+  rewrite (IH H). destruct a as [| |qa]; try discriminate. destruct b as [| |qb]; try discriminate.
+  simpl. destruct (Qle_bool qb qa); reflexivity.
+Qed.
+
+Lemma set_m_error_documented_l : forall s a,
+  code_set_m_error true true s a = mdec_of (doc_set_m_error s a).
+Proof.
+  intros s [n fv nf tr narrow s16]. unfold code_set_m_error, doc_set_m_error.
+  cbn [mx_n mx_fv mx_nf mx_tr mx_narrow mx_s16].
+  destruct (Z.ltb_spec n 1) as [Hn|Hn]; [reflexivity|].
+  destruct nf as [nfl|]; [|destruct tr; reflexivity].
+  rewrite !existsb_negb_forallb.
+  destruct (forallb xsigma_pos nfl); [|reflexivity]. cbn [negb].
+  destruct (forallb xsigma_nonneg (olist tr)); [|reflexivity]. cbn [negb].
+  destruct (v_fvalid s); [|reflexivity]. cbn [negb].
+  assert (Hn1 : (1 <? n) = negb (n =? 1)).
+  { destruct (Z.ltb_spec 1 n), (Z.eqb_spec n 1); try reflexivity; lia. }
+  destruct fv as [l|].
+  - rewrite Hn1. destruct (n =? 1); [cbn [negb andb]; destruct (is_16 (v_type s) && s16); reflexivity|]. cbn [negb andb orb].
+    rewrite existsb_negb_forallb.
+    destruct (forallb xfreq_ok l) eqn:Hok.
+    + rewrite (xascending_adjacent l Hok). cbn [negb orb].
+      destruct (xadjacent_ge l); cbn [negb orb]; [reflexivity|].
+      destruct ((0 <? v_freqs s) && narrow); [reflexivity|]. destruct (is_16 (v_type s) && s16); reflexivity.
+    + reflexivity.
+  - destruct (negb (n =? 1) && negb (n =? v_freqs s)); [reflexivity|]. destruct (is_16 (v_type s) && s16); reflexivity.
+Qed.
+
+(* ------------------------------------------------------------------ the log of calls of the error function, from the steps *)
+Lemma ctrace_k_cout : forall c e p clob k st, fst (ctrace_k e p clob k c st) = crun_k e k c.
+Proof.
+  induction c as [|s c IH]; intros e p clob k st; simpl; [reflexivity|].
+  destruct k as [|k]; [|apply IH].
+  destruct s; try (destruct (ceval e c0); [reflexivity|apply IH]); try apply IH; try reflexivity.
+  destruct (ceval e c0); apply IH.
+Qed.
+
+(* a prologue that passes or leaves through an early exit has run no reporter and stored no errno *)
+Lemma ctrace_k_success_silent : forall c e p clob k st o st',
+  ctrace_k e p clob k c st = (o, st') -> (o = CPass \/ o = CExitOk) -> st' = st.
+Proof.
+  induction c as [|s c IH]; intros e p clob k st o st' H Ho; simpl in H; [inversion H; reflexivity|].
+  destruct k as [|k]; [|eapply IH; eauto].
+  destruct s.
+  - destruct (ceval e c0); [inversion H; subst; destruct Ho; discriminate|eapply IH; eauto].
+  - destruct (ceval e c0); [inversion H; subst; destruct Ho; discriminate|eapply IH; eauto].
+  - destruct (ceval e c0); [inversion H; reflexivity|eapply IH; eauto].
+  - destruct (ceval e c0); eapply IH; eauto.
+  - eapply IH; eauto.
+  - inversion H; reflexivity.
+  - inversion H; reflexivity.
+Qed.
+
+Lemma run_effects_paths : forall p cat entry clob,
+  run_effects (new_errno cat entry) cat (path_effects p) clob 0 (mkr entry []) =
+  mkr (new_errno cat entry) (match p with PNoErrorFn => [] | _ => [(cat, new_errno cat entry)] end).
+Proof. intros [| |] cat entry clob; reflexivity. Qed.
+
+Lemma ctrace_k_refused : forall fv c e p clob k entry v r st',
+  contract_classified fv c = true ->
+  ctrace_k e p clob k c (mkr entry []) = (CRefused v r, st') ->
+  v = fv /\ r_errno st' = E_INVAL /\ List.length (r_log st') = path_callbacks p r /\
+  (forall ce, In ce (r_log st') -> ce = (USAGE, E_INVAL)).
+Proof.
+  intros fv c e p clob. induction c as [|s c IH]; intros k entry v r st' Hc H; simpl in *; [discriminate|].
+  apply andb_true_iff in Hc. destruct Hc as [Hs Hc].
+  destruct k as [|k]; [|eapply IH; eauto].
+  destruct s; simpl in Hs.
+  - destruct (ceval e c0); [|eapply IH; eauto].
+    apply andb_true_iff in Hs. destruct Hs as [Hv He]. inversion H; subst. apply fval_eqb_eq in Hv. apply errno_eqb_eq in He. subst.
+    simpl. repeat split; try reflexivity; [destruct p; reflexivity|intros ce []].
+  - destruct (ceval e c0); [|eapply IH; eauto].
+    apply andb_true_iff in Hs. destruct Hs as [Hv He]. inversion H; subst. apply fval_eqb_eq in Hv. apply category_eqb_eq in He. subst.
+    simpl r_errno. rewrite run_effects_paths. destruct p; simpl; repeat split; try reflexivity;
+      intros ce Hin; try (destruct Hin as [Hin|[]]; symmetry; exact Hin); destruct Hin.
+  - destruct (ceval e c0); [discriminate|eapply IH; eauto].
+  - destruct (ceval e c0); eapply IH; eauto.
+  - eapply IH; eauto.
+  - discriminate.
+  - discriminate.
+Qed.
+
+Lemma contract_trace_l : forall f fv c e p clob entry v r st',
+  In (f, fv, c) gen_contracts -> ctrace e p clob c entry = (CRefused v r, st') ->
+  v = fv /\ r_errno st' = E_INVAL /\ List.length (r_log st') = path_callbacks p r /\
+  (forall ce, In ce (r_log st') -> ce = (USAGE, E_INVAL)) /\
+  (is_silent_function f = true -> r_log st' = []) /\
+  crun e c = CRefused v r.
+Proof.
+  intros f fv c e p clob entry v r st' Hin H.
+  pose proof (in_gen_contracts _ contracts_classified_l _ Hin) as Hc. simpl in Hc.
+  destruct (ctrace_k_refused _ _ _ _ _ _ _ _ _ _ Hc H) as [Hv [He [Hl Hall]]].
+  assert (Hrun : crun e c = CRefused v r).
+  { unfold crun. rewrite <- (ctrace_k_cout c e p clob 0%nat (mkr entry [])). unfold ctrace in H. rewrite H. reflexivity. }
+  repeat split; try assumption.
+  intro Hs. pose proof (in_gen_contracts _ silent_contracts_l _ Hin) as Hsil. simpl in Hsil.
+  rewrite Hs in Hsil. simpl in Hsil.
+  destruct (crun_k_silent _ _ _ _ _ Hsil Hrun) as [en Hr]. subst r.
+  destruct (r_log st') as [|x l]; [reflexivity|]. destruct p; discriminate Hl.
+Qed.
+
+Lemma model_variant_set_m_error_l :
+  let s := mknsum 0 2 2 3 true false (mknew [] 0 0 0 None) in
+  code_set_m_error false false s (mkmerrx 1 (Some [XFin 2000]) (Some [XFin (5 # 1000)]) None true false) = MRefuse /\
+  doc_set_m_error s (mkmerrx 1 (Some [XFin 2000]) (Some [XFin (5 # 1000)]) None true false) = CPass /\
+  code_set_m_error false false s (mkmerrx 1 None (Some [XNaN]) None false false) = MPassD /\
+  doc_set_m_error s (mkmerrx 1 None (Some [XNaN]) None false false) = CRefused VM1 (Via USAGE).
+Proof. vm_compute. repeat split; reflexivity. Qed.
